@@ -2,8 +2,9 @@
 //  Release-build semantics: the two debug_assert!s of append_span are dropped (rule R2); character boundaries are the subject of unit
 //  U20, here only ORDER and COVERAGE are claimed: the spans tile [0, cursor) at every step and each call advances the cursor to
 //  exactly the end of the text it was given.  The tokenizer and the word parser are out of reach (PEG / hand-written state machine):
-//  what they return is ASSUMED well-formed — offsets inside the text, ordered, nested pieces inside their parent, and the text
-//  of a command substitution fitting between its delimiters.
+//  what they return is ASSUMED well-formed — token offsets inside the text and pairwise disjoint (NOT ordered: see tokens_sortable),
+//  nested pieces inside their parent and ordered, and the text of a `$(..)` substitution fitting between its delimiters (a backquoted
+//  one is highlighted from the raw slice of the line, so its parsed text only matters when that slice cannot be taken).
 pub open spec fn tiles(spans: Seq<HighlightSpan>, cur: int) -> bool {
     &&& (spans.len() == 0 ==> cur == 0)
     &&& (spans.len() > 0 ==> spans[0].range.start == 0 && spans.last().range.end == cur)
@@ -25,12 +26,53 @@ pub open spec fn tokens_wf(ts: Seq<Token>, nchars: int) -> bool {
     &&& forall|i: int| 0 <= i < ts.len() ==> (#[trigger] token_span(ts[i])).start.index <= token_span(ts[i]).end.index <= nchars
     &&& forall|i: int| 0 <= i < ts.len() - 1 ==> (#[trigger] token_span(ts[i])).end.index <= token_span(ts[i + 1]).start.index
 }
+// What is ASSUMED of the tokenizer's result.  It is NOT in source order: the tokens of a here-document (body, end tag) come right
+// after the tag that introduces it, ahead of the rest of that line (highlight_program sorts by start offset first).  Assumed: every
+// token lies inside the text; a token that starts before another one also ends before it starts; of two tokens with the same start the
+// one yielded first is empty (the end tag of a here-document closed by the end of its line, yielded ahead of the next line's first word).
+pub open spec fn tokens_sortable(ts: Seq<Token>, nchars: int) -> bool {
+    &&& forall|i: int| 0 <= i < ts.len() ==> (#[trigger] token_span(ts[i])).start.index <= token_span(ts[i]).end.index <= nchars
+    &&& forall|i: int, j: int| 0 <= i < ts.len() && 0 <= j < ts.len() && (#[trigger] token_span(ts[i])).start.index < (#[trigger] token_span(ts[j])).start.index
+            ==> token_span(ts[i]).end.index <= token_span(ts[j]).start.index
+    &&& forall|i: int, j: int| 0 <= i < j < ts.len() && (#[trigger] token_span(ts[i])).start.index == (#[trigger] token_span(ts[j])).start.index
+            ==> token_span(ts[i]).end.index == token_span(ts[i]).start.index
+}
+// R14: `tokens.sort_by_key(|token| token.location().start.index)` — std: "This sort is stable (i.e., does not reorder equal elements)"
+pub open spec fn sorted_stable_by_start(old_ts: Seq<Token>, new_ts: Seq<Token>, p: Seq<int>) -> bool {
+    &&& new_ts.len() == old_ts.len() && p.len() == old_ts.len()
+    &&& forall|k: int| 0 <= k < p.len() ==> 0 <= #[trigger] p[k] < old_ts.len() && new_ts[k] == old_ts[p[k]]
+    &&& forall|k: int, l: int| 0 <= k < l < p.len() ==> p[k] != p[l]
+    &&& forall|k: int, l: int| 0 <= k < l < p.len() ==> (#[trigger] token_span(new_ts[k])).start.index <= (#[trigger] token_span(new_ts[l])).start.index
+    &&& forall|k: int, l: int| 0 <= k < l < p.len() && token_span(new_ts[k]).start.index == token_span(new_ts[l]).start.index ==> #[trigger] p[k] < #[trigger] p[l]
+}
+#[verifier::external_body]
+pub fn sort_tokens_by_start(tokens: &mut Vec<Token>)
+    ensures exists|p: Seq<int>| sorted_stable_by_start(old(tokens)@, final(tokens)@, p)
+{ unimplemented!() }
+pub proof fn lemma_sorted_tokens_wf(old_ts: Seq<Token>, new_ts: Seq<Token>, nchars: int)
+    requires tokens_sortable(old_ts, nchars), exists|p: Seq<int>| sorted_stable_by_start(old_ts, new_ts, p)
+    ensures tokens_wf(new_ts, nchars)
+{
+    let p = choose|p: Seq<int>| sorted_stable_by_start(old_ts, new_ts, p);
+    assert forall|i: int| 0 <= i < new_ts.len() implies (#[trigger] token_span(new_ts[i])).start.index <= token_span(new_ts[i]).end.index <= nchars by {
+        assert(new_ts[i] == old_ts[p[i]]);
+    }
+    assert forall|i: int| 0 <= i < new_ts.len() - 1 implies (#[trigger] token_span(new_ts[i])).end.index <= token_span(new_ts[i + 1]).start.index by {
+        let a = p[i]; let b = p[i + 1];
+        assert(new_ts[i] == old_ts[a] && new_ts[i + 1] == old_ts[b]);
+        assert(token_span(new_ts[i]).start.index <= token_span(new_ts[i + 1]).start.index);
+        if token_span(old_ts[a]).start.index < token_span(old_ts[b]).start.index {
+        } else {
+            assert(a < b);
+        }
+    }
+}
 pub mod brush_parser {
     use vstd::prelude::*;
     pub use super::Token;
     #[verifier::external_body]
     pub fn tokenize_str_with_options(line: &str, options: &super::TokenizerOptions) -> (r: Result<Vec<super::Token>, ()>)
-        ensures r is Ok ==> super::tokens_wf(r->Ok_0@, line@.len() as int)
+        ensures r is Ok ==> super::tokens_sortable(r->Ok_0@, line@.len() as int)
     { unimplemented!() }
     pub mod word {
         use vstd::prelude::*;
@@ -86,6 +128,11 @@ pub fn byte_offset_of(table: &CharByteOffsets, char_offset: usize) -> (r: usize)
 #[verifier::external_body]
 pub fn str_get_or_empty<'a>(line: &'a str, a: usize, b: usize) -> (r: &'a str)
     ensures byte_len(r@) <= (if a <= b { b - a } else { 0 }) as int
+{ unimplemented!() }
+// input_line.get(a..b).unwrap_or(fallback): the bytes a..b when a <= b <= len and both are character boundaries, else the fallback
+#[verifier::external_body]
+pub fn str_get_or<'a>(line: &'a str, a: usize, b: usize, fallback: &'a str) -> (r: &'a str)
+    ensures r@ == fallback@ || (a <= b && byte_len(r@) == b - a)
 { unimplemented!() }
 pub proof fn lemma_byte_offset_monotone(text: Seq<char>, a: int, b: int)
     requires 0 <= a <= b,
